@@ -289,6 +289,9 @@ func (m *Monitor) check(topic string, data []byte, nowSlot uint64, offMs uint64,
 			return "none", nil
 		}
 		if msgSlot > nowSlot {
+			if msgSlot > ^uint64(0)/12 { // its start time in seconds does not fit 64 bits
+				return "slot-time-overflow", entry
+			}
 			return "early-slot", entry
 		}
 		if outside {
